@@ -58,9 +58,10 @@ def decoy_bytes(orig, kind, bs=1024):
 def job(j):
     levels, target, nsec, decoy, partial, flavour, seed = j[:7]
     silent = j[7] if len(j) > 7 else False
-    cfg = Config(levels=levels, ndisks=2)
+    hashsize = j[8] if len(j) > 8 else 16
+    cfg = Config(levels=levels, ndisks=2, hashsize=hashsize)
     v = []
-    where = "%s nsec=%d decoy=%s partial=%s silent-error-in-stripe=%s %s" % (target, nsec, decoy, partial, silent, " ".join(flavour))
+    where = "%s nsec=%d decoy=%s partial=%s silent-error-in-stripe=%s hashsize=%d %s" % (target, nsec, decoy, partial, silent, hashsize, " ".join(flavour))
     with labmod.Lab(cfg, seed=seed) as L:
         td, tp = TARGETS[target]
         od = "d2" if td == "d1" else "d1"
@@ -156,6 +157,9 @@ def run(ctx):
             for p in (False, True) for f in FLAVOURS]
     # the same matrix with a silent error in every stripe the look-alike occupies, on 2 parity levels (on-the-fly repair possible)
     jobs += [(2, t, ns, d, False, f, ctx.seed, True) for t in targets for ns in (0, 500) for d in decoys for f in FLAVOURS]
+    # reduced hash size (the special hash markers are then indistinguishable from real hashes)
+    jobs += [(l, t, ns, d, p, f, ctx.seed, False, 8) for l in levels[:1] for t in targets for ns in (0, 500) for d in decoys
+             for p in ((False,) if tier == "quick" else (False, True)) for f in (FLAVOURS[:1] if tier == "quick" else FLAVOURS)]
     evals = 0
     done = 0
     for j, r in par.pmap(job, jobs, deadline=ctx.deadline):
@@ -166,7 +170,7 @@ def run(ctx):
             ctx.nontrivial(j[:6] + j[7:])
         for v in r["viols"]:
             ctx.violation("C19/%s" % v["kind"], "%s: %s" % (v["kind"], v.get("where")),
-                          dict(levels=j[0], target=j[1], nsec=j[2], decoy=j[3], partial=j[4], flavour=j[5], silent=(j[7] if len(j) > 7 else False), violation=v))
+                          dict(levels=j[0], target=j[1], nsec=j[2], decoy=j[3], partial=j[4], flavour=j[5], silent=(j[7] if len(j) > 7 else False), hashsize=(j[8] if len(j) > 8 else 16), violation=v))
         if done in (5, 60):
             ctx.sample(dict(levels=j[0], target=j[1], nsec=j[2], decoy=j[3], partial_source=j[4], flavour=j[5], outcome=r["outcome"]))
     if done < len(jobs):
@@ -180,7 +184,7 @@ def run(ctx):
 
 
 def replay(r):
-    out = job((r["levels"], r["target"], r["nsec"], r["decoy"], r["partial"], tuple(r["flavour"]), 0, r.get("silent", False)))
+    out = job((r["levels"], r["target"], r["nsec"], r["decoy"], r["partial"], tuple(r["flavour"]), 0, r.get("silent", False), r.get("hashsize", 16)))
     for v in out["viols"]:
         print("  ", v)
     return not out["viols"]
